@@ -15,6 +15,9 @@
 EXTENDS Bf2Import, HwcidNames, Json, IOUtils
 Trace == ndJsonDeserialize(IOEnv.TRACE_FILE)
 Names == HwcidNames
+\* ev.xn: names the library has for ids OUTSIDE the pinned list (upstream additions): used for those ids only
+NamesOf(ev) == IF "xn" \in DOMAIN ev THEN HwcidNames \o ev.xn ELSE HwcidNames
+XnOk(ev) == "xn" \in DOMAIN ev => \A j \in 1..Len(ev.xn) : \A q \in 1..Len(HwcidNames) : HwcidNames[q][1] # ev.xn[j][1]
 VARIABLE i
 
 Dev(d, r) == [drop |-> d, retain |-> r]
@@ -28,13 +31,14 @@ ImpMatch(ev, e) == IF e.err # "" THEN ev.kind = "raise"
 ReasonOk(why, err) == why = err \/ (why = "invalid-instruction" /\ err \in {"invalid-crc", "invalid-versiondesc", "invalid-firmware-comment"})
 ImportVerdict(ev) ==
     IF ev.bad = 1 THEN "payload-bytes-not-attributable"
-    ELSE LET e0 == Import(ev.items, ev.enforce = 1, Names, Dev(FALSE, FALSE)) IN
+    ELSE IF ~XnOk(ev) THEN "extra-name-for-a-documented-id"
+    ELSE LET e0 == Import(ev.items, ev.enforce = 1, NamesOf(ev), Dev(FALSE, FALSE)) IN
          IF ImpMatch(ev, e0) THEN (IF ev.kind = "raise" /\ ev.why # "" /\ ~ReasonOk(ev.why, e0.err)
-                                      /\ \A d \in BOOLEAN, t \in BOOLEAN : ~ReasonOk(ev.why, Import(ev.items, ev.enforce = 1, Names, Dev(d, t)).err)
+                                      /\ \A d \in BOOLEAN, t \in BOOLEAN : ~ReasonOk(ev.why, Import(ev.items, ev.enforce = 1, NamesOf(ev), Dev(d, t)).err)
                                    THEN "soft:reject-reason-differs:" \o e0.err ELSE "ok")
-         ELSE IF ImpMatch(ev, Import(ev.items, ev.enforce = 1, Names, Dev(TRUE, FALSE))) THEN "unpack-drops-first-line-after-gap"
-         ELSE IF ImpMatch(ev, Import(ev.items, ev.enforce = 1, Names, Dev(FALSE, TRUE))) THEN "skipped-section-data-retained"
-         ELSE IF ImpMatch(ev, Import(ev.items, ev.enforce = 1, Names, Dev(TRUE, TRUE))) THEN "drop-after-gap+skipped-data-retained"
+         ELSE IF ImpMatch(ev, Import(ev.items, ev.enforce = 1, NamesOf(ev), Dev(TRUE, FALSE))) THEN "unpack-drops-first-line-after-gap"
+         ELSE IF ImpMatch(ev, Import(ev.items, ev.enforce = 1, NamesOf(ev), Dev(FALSE, TRUE))) THEN "skipped-section-data-retained"
+         ELSE IF ImpMatch(ev, Import(ev.items, ev.enforce = 1, NamesOf(ev), Dev(TRUE, TRUE))) THEN "drop-after-gap+skipped-data-retained"
          ELSE IF e0.err # "" THEN "accepted-but-must-reject:" \o e0.err
          ELSE IF ev.kind = "raise" THEN "rejected-but-convertible"
          ELSE IF ev.comps # e0.comps THEN "components-differ"
@@ -72,8 +76,9 @@ NamesVerdict(ev) ==
         R == {<<ev.rev[j][1], ev.rev[j][2]>> : j \in 1..Len(ev.rev)}
     IN  IF \E a \in 1..Len(ev.fwd), b \in 1..Len(ev.fwd) : a # b /\ ev.fwd[a][2] = ev.fwd[b][2] THEN "hwcid-map-two-names-for-one-id"
         ELSE IF \E a \in 1..Len(ev.fwd), b \in 1..Len(ev.fwd) : a # b /\ ev.fwd[a][1] = ev.fwd[b][1] THEN "hwcid-map-name-twice"
-        ELSE IF F # P THEN "hwcid-map-differs-from-pinned-list"
-        ELSE IF R # P \/ Len(ev.rev) # Cardinality(P) THEN "rev-hwcid-map-differs-from-pinned-list"
+        \* every documented id keeps its documented name (additions for other ids are not an alarm); the reverse map is the inverse
+        ELSE IF ~(P \subseteq F) THEN "hwcid-map-differs-from-pinned-list"
+        ELSE IF R # F \/ Len(ev.rev) # Cardinality(F) THEN "rev-hwcid-map-differs-from-pinned-list"
         ELSE "ok"
 
 Verdict(ev) == IF ev.op = "import" THEN ImportVerdict(ev)
